@@ -85,25 +85,33 @@ def generate(rng, tier):
     return {"prop": PROP, "tier": tier, "config": cfg, "ops": ops}
 
 
-def exhaustive_plans():
-    """The fixed small-map family whose every cut offset is swept in the
-    thorough tier (one plan per map and format)."""
+def exhaustive_plans(tier="thorough"):
+    """The fixed small-map family whose every cut offset is swept (one plan
+    per map, writer/reader pair and precision)."""
     plans = []
-    shapes = [[1, 1], [1, 3], [3, 1], [2, 2], [3, 4], [4, 3], [2, 5], [5, 5]]
+    if tier == "quick":
+        shapes = [[1, 1], [1, 3], [2, 2], [3, 4]]
+        pats = (("mixed", "none"), ("neg", "scatter"))
+        precs = (64,)
+    else:
+        shapes = [[1, 1], [1, 2], [1, 3], [3, 1], [2, 2], [2, 3], [3, 4], [4, 3], [2, 5], [5, 5], [6, 7], [7, 2]]
+        pats = (("mixed", "none"), ("neg", "scatter"), ("pos_big", "rows"), ("const", "edge"), ("zero", "none"),
+                ("tiny", "scatter"), ("huge", "none"), ("neg_big", "all"))
+        precs = (64, 32)
     k = 0
     for shp in shapes:
-        for vals, nan in (("mixed", "none"), ("neg", "scatter"), ("pos_big", "rows"), ("const", "edge"), ("zero", "none")):
-            for fmt in FORMATS:
-                if fmt == "zygo_file":
-                    continue
-                k += 1
-                plans.append({"prop": PROP, "tier": "thorough", "exhaustive": True,
-                              "config": {"faults": True, "t0": 1.7e9, "precision0": 64},
-                              "ops": [{"op": "write", "fmt": fmt, "path": "/sim/x",
-                                       "map": {"shape": shp, "seed": 1000 + k, "vals": vals, "nan": nan, "mag": 250.0},
-                                       "dx": 0.25, "wvl": 0.6328},
-                                      {"op": "cutscan", "path": "/sim/x", "via": "ifg" if fmt == "ifg" else "io",
-                                       "header_stride": 1}]})
+        for vals, nan in pats:
+            for fmt, via in (("zygo_path", "io"), ("zygo_file", "ifg"), ("ifg", "ifg"), ("ifg", "io"), ("codev", "io")):
+                for prec in precs:
+                    if tier == "quick" and fmt == "zygo_file":
+                        continue
+                    k += 1
+                    plans.append({"prop": PROP, "tier": tier, "exhaustive": True,
+                                  "config": {"faults": True, "t0": 1.7e9, "precision0": prec},
+                                  "ops": [{"op": "write", "fmt": fmt, "path": "/sim/x",
+                                           "map": {"shape": shp, "seed": 1000 + k, "vals": vals, "nan": nan, "mag": 250.0},
+                                           "dx": 0.25, "wvl": 0.6328 if k % 3 else 1.55},
+                                          {"op": "cutscan", "path": "/sim/x", "via": via, "header_stride": 1}]})
     return plans
 
 
@@ -691,6 +699,10 @@ def simplifiers(plan):
             # otherwise keep the scan (the failing offset is in the violation record)
             pass
 
+
+EXHAUSTIVE_NOTE = ("every cut offset 0..L (header stride 1) of the complete file, for a fixed family of small maps "
+                   "(thorough: 12 shapes x 8 value/NaN patterns x 5 writer/reader pairs x 2 precisions; quick: 4 shapes x 2 "
+                   "patterns x 4 pairs): this family is enumerated completely; everything else is sampled")
 
 RULE = ("A run is a seeded history of 2-12 writes (Zygo .dat via path and via file object, Interferogram.save_zygo_dat, "
         "Code V grid INT), reads (prysm.io readers and Interferogram.from_zygo_dat), post-hoc cuts, cut scans and clock "
